@@ -147,7 +147,9 @@ def kill_preference_reader(ctx):
                       "probe table order lets an avoid mark win over a prefer mark (first match decides): " + str(kinds))
             # loop returns the entry's preference on the first found attribute, NORMAL afterwards
             fl_ = Flow(P, rk, cg=ctx.cg)
-            good = any(has_fact(fl_.guards(r), True, "*maybe") and "NORMAL" not in ret_text(rk, r) for r in returns(rk))
+            probes_ = locals_receiving(rk, r"hasxattrAt\(")
+            found_ = lambda g_: any(p_ is True and k_ in ["*" + n_ for n_ in probes_] + [n_ + ".value()" for n_ in probes_] for k_, p_ in g_)
+            good = any(found_(fl_.guards(r)) and "NORMAL" not in ret_text(rk, r) and "SYSTEM_ERROR" not in ret_text(rk, r) and "error()" not in ret_text(rk, r) for r in returns(rk))
             ctx.check(good, "readKillPreferenceAt:first-match-returns", "return_table", rk.loc(),
                       "the first attribute found decides", "no return on the found edge inside the probe loop")
     try:
